@@ -96,6 +96,18 @@ class VList(V):
         return self.et.wrap(self.LT.at(self.t, i))
 
 
+class VSet(V):
+    """finite set / frozenset of values of type et: Array(et, Bool)"""
+
+    def __init__(self, t, et):
+        self.t = t
+        self.et = et
+        self.ty = TSet(et)
+
+    def enum(self):
+        return VList(L.enum_theory(self.et.sort())[0](self.t), self.et)
+
+
 class VFalseOr(V):
     """the Python value `False` or a value of type `inner`"""
 
@@ -293,6 +305,23 @@ class TList(T):
 
     def __repr__(self):
         return f"TList({self.et})"
+
+
+class TSet(T):
+    def __init__(self, et):
+        self.et = et
+
+    def sort(self):
+        return z3.SetSort(self.et.sort())
+
+    def fresh(self, name, st):
+        return VSet(st.fresh_const(name, self.sort()), self.et)
+
+    def wrap(self, t):
+        return VSet(t, self.et)
+
+    def __repr__(self):
+        return f"TSet({self.et})"
 
 
 class TFalseOr(T):
